@@ -89,7 +89,7 @@ var strPool = []string{"", "s", "t", "<>&", "a\"b", "back\\slash", "tab\t", " 
 	"null", "0", "x<y", " ", "\x7f", "\x01", "long string with spaces",
 	// code points at the encoding boundaries (UTF-8 lengths, surrogate arithmetic)
 	"\u007f\u0080", "\u07ff\u0800", "\ud7ff\ue000", "\uffff", "\U00010000", "\U000103ff", "\U0001f400", "\U0010fc00", "\U0010ffff",
-	"\U00020000x", "\ufffd", "100%", "%s%d%v", "%!(EXTRA)", "50%% off",
+	"\U00020000x", "\ufffd", "\ufffd\ufffd", "x\ufffd\ufffd\ufffdy", "100%", "%s%d%v", "%!(EXTRA)", "50%% off",
 	// neighbours of the byte patterns the HTML escaper looks for (E2 80 A8 / E2 80 A9)
 	"\u2068", "\u2069", "\u2027", "\u202a", "\u3028", "\u20a8", "\u2028\u2029", "a\u2028", "\xe2\x80", "\xe2", "\f", "\b\f\v"}
 
@@ -101,7 +101,7 @@ func init() {
 	}
 	// strings and names that END in a backslash or a quote (the closing quote follows an escape)
 	strPool = append(strPool, "C:\\tmp\\", "\\", "x\\\\", "say \"hi\"", "\"")
-	namePool = append(namePool, "dir\\", "q\"", "\\")
+	namePool = append(namePool, "dir\\", "q\"", "\\", "\ufffd", "\ufffd\ufffd")
 	// member names that look like numbers to a lenient parser (bases, separators, signs, exponents)
 	namePool = append(namePool, "0x1f", "0b101", "0o17", "1_000", "1e3", "+5", "007", "0X1F", " 1", "1 ", "١")
 	namePool = append(namePool, "\xff\xff\xff", strings.Repeat("\xff", 5), strings.Repeat("\xfe", 6), "k"+strings.Repeat("\xc0", 8))
@@ -251,6 +251,13 @@ func freeString(r *rng, s string) string {
 		if rn == utf8.RuneError && sz == 1 {
 			sb.WriteByte(c) // invalid UTF-8 stays raw
 			i++
+			continue
+		}
+		if rn == 0xfffd && r.chance(1, 2) {
+			// U+FFFD is also what every UNPAIRED surrogate escape decodes to: spell it as one (high or low, at the
+			// boundaries of both ranges), so that runs of U+FFFD become runs of lone surrogates in every order
+			sb.WriteString(r.pick([]string{"\\ud800", "\\udbff", "\\udc00", "\\udfff", "\\uDC01", "\\uD83D"}))
+			i += sz
 			continue
 		}
 		if r.chance(1, 4) {
